@@ -425,6 +425,10 @@ impl CodegenContext {
                 let parent_nx = self.symbols.ensure_index(self.symbols.root, &parent);
                 let nx = self.symbols.insert(parent_nx, id, symbol);
                 log::trace!("Symbol was inserted with index: {:?}", nx);
+                // The index of a removed symbol (e.g. the 'index' of a loop) is handed out again: a new symbol
+                // must not inherit what is known about the one that had its index before
+                self.analysis
+                    .remove_definition(&DefinitionType::Symbol(nx));
                 nx
             }
         };
@@ -446,8 +450,13 @@ impl CodegenContext {
                 symbol_nx
             );
             let parent_scope = self.current_scope_nx;
-            self.symbol_definition(symbol_nx)
-                .set_location(DefinitionLocation { parent_scope, span });
+            let location = DefinitionLocation { parent_scope, span };
+            let definition = self.symbol_definition(symbol_nx);
+            match &definition.location {
+                // A variable may be defined again: every further definition is an occurrence of the same symbol
+                Some(first) if first != &location => definition.add_usage(location),
+                _ => definition.set_location(location),
+            }
         }
 
         Ok(symbol_nx)
